@@ -473,9 +473,7 @@ def _task_long(task):
         for body in bodies:
             bits = "1" * offset + format(nbytes & 0xFFFF, "016b") + "".join(format(x, "08b") for x in body) + "10100101"
             bits += "0" * ((-len(bits)) % 8)
-            if len(bits) // 8 > 65536:
-                continue
-            pkt = docs.packet_for(j, bits)
+            pkt = docs.packet_for(j, bits)   # beyond 65536 bytes: a packet as segment reassembly hands it over
             try:
                 with case_alarm(120):
                     want = decode_packet(doc, pkt)
@@ -506,7 +504,7 @@ def run(ctx):
         tasks.append({"family": "binary", "offset": off, "tier": ctx.tier, "via": "xml"})
     tasks.append({"family": "binary", "offset": 1, "tier": ctx.tier, "via": "objects"})
     tally = fan_out(_task, tasks, jobs=ctx.jobs, seed=ctx.seed)
-    sizes = (300, 4098, 30000) if ctx.quick else (300, 1000, 4098, 30000, 65000)
+    sizes = (300, 4098, 30000, 70000) if ctx.quick else (300, 1000, 4098, 30000, 65000, 70000, 140000)   # the last ones: longer than any single CCSDS packet (combined segments)
     tally.merge(fan_out(_task_long, [{"offset": off, "nbytes": nb} for nb in sizes for off in ((0, 5) if ctx.quick else (0, 1, 5, 7))], jobs=ctx.jobs, seed=ctx.seed))
     tally.merge(fan_out(_task_edits, [{"offset": off} for off in (0, 3)], jobs=ctx.jobs, seed=ctx.seed))
     coverage = {
